@@ -307,6 +307,57 @@ def run(chk):
                 raise mir.AnchorMissing("attribute closure of %s" % what)
             return True, "", hits
         return f
+    def lifted_keys_kept(key_sub, what, dropped):
+        def f():
+            """In the attribute callbacks every arm for a well-known key *does something with the value*: it stores a value derived from the property into a
+            variable of the enclosing function (the level, the ids, the error flag - read afterwards into the record's dedicated field) or streams
+            something.  An arm that only returns Ok(()) drops the property; that is right for the keys in the small table below (they reach
+            the record by another route), and for no other."""
+            cands = [b for b in bodies if key_sub in b.key and b.is_closure and b.argc >= 4]
+            ev = []
+            for b in cands:
+                arms = {}
+                for gbb, t in b.switches():
+                    so, pos = mir.norm_bool(b.switch_origin(gbb))
+                    if so[0] == "call" and so[1].callee.get("name") in ("eq", "ne"):
+                        k = None
+                        for a in so[1].args:
+                            v = mir.o_const_value(b.origin(a))
+                            if isinstance(v, str):
+                                k = v
+                        if k is None:
+                            continue
+                        if so[1].callee.get("name") == "ne":
+                            pos = not pos
+                        for v_, tgt in [(v_, n_) for v_, n_ in t["targets"]] + [("otherwise", t["otherwise"])]:
+                            if ((str(v_) != "0") == pos):
+                                arms[k] = (gbb, tgt)
+                if len(arms) < 3:
+                    continue
+                for k, (gbb, tgt) in sorted(arms.items()):
+                    region = {x for x in range(len(b.blocks)) if not b.blocks[x].get("cleanup") and (x == tgt or b.edge_dominates(gbb, tgt, x))}
+                    acts = False
+                    for x in region:
+                        for st in b.blocks[x]["stmts"]:
+                            if st["k"] == "assign" and st["place"].get("p") and st["place"]["p"][0] == "*" and st["place"]["l"] <= b.argc + 40:
+                                base = b.origin({"c": {"l": st["place"]["l"]}})
+                                if any(r_[0] == "capture" or (r_[0] == "param" and r_[1] == 1) for r_ in common.roots(base)) or base[0] == "capture" or                                         (base[0] in ("field", "deref") and mir.o_root(base)[0] in ("param", "capture")):
+                                    acts = True
+                        tm = b.blocks[x]["term"]
+                        if tm["k"] == "call" and (tm["callee"].get("name") or "").startswith(("stream_", "value", "seq_", "record_")):
+                            acts = True
+                    if not acts and k not in dropped:
+                        return False, ("the arm for the well-known key `%s` in the %s attribute callback neither stores the property's value for the record's dedicated "
+                                       "field nor streams anything: the property is dropped from the exported record" % (k, what)), [], "%s:%s" % (b.file, b.blocks[tgt]["term"].get("line"))
+                    ev.append("%s: %s" % (k, "kept" if acts else "dropped (by table)"))
+            if len(ev) < 4:
+                raise mir.AnchorMissing("arms of the %s attribute callback (found %d)" % (what, len(ev)))
+            return True, "", ev
+        return f
+    chk.ob("C13.R4:log-keys-kept", "every well-known key arm of the log record's attribute callback keeps the value (level, ids, error)",
+           lifted_keys_kept("logs::log_record", "log record", ()))
+    chk.ob("C13.R4:span-keys-kept", "every well-known key arm of the span's attribute callback keeps the value (level, ids, error flag)",
+           lifted_keys_kept("traces::span", "span", ("evt_kind", "span_name")))
     chk.ob("C13.R4:log-attributes", "log records lift well-known keys to their fields instead of emitting them as attributes",
            lifted("logs::log_record", "log records"))
     chk.ob("C13.R4:span-attributes", "spans lift well-known keys to their fields instead of emitting them as attributes",
